@@ -138,6 +138,8 @@ fn quat_slerp<T: Sx>() {
     assume(eq(dotl(&fv, &fv), k(1)));
     assume(eq(dotl(&gv, &gv), k(1)));
     let d = f.dot(g);
+    // no division by zero on any path (sin(phi) != 0 wherever the formula branch is taken)
+    check_defined();
     let q = Quaternion::slerp_unclamped(f, g, t);
     let qv = qe(q);
     let eps = T::epsilon();
@@ -181,6 +183,7 @@ fn quat_slerp_ends<T: Sx>(end: i64) {
     assume(eq(dotl(&fv, &fv), k(1)));
     assume(eq(dotl(&gv, &gv), k(1)));
     let d = f.dot(g);
+    check_defined();
     let q = qe(Quaternion::slerp_unclamped(f, g, k(end)));
     let flipped = d < k(0);
     if end == 0 {
